@@ -350,7 +350,7 @@ func hGenerate(rng *vk.Rand, logged bool) *hHist {
 	if logged {
 		ws = hWeightsC05
 		// initial snapshot content
-		h.Init = vBitmapSpec{Coll: h.Coll, Prov: "fresh"}
+		h.Init = vBitmapSpec{Coll: h.Coll, Prov: []string{"fresh", "optimized", "decoded"}[rng.Intn(3)]}
 		if rng.Chance(2, 3) {
 			nc := 1 + rng.Intn(2)
 			byKey := map[uint64]vContSpec{}
@@ -508,6 +508,27 @@ func hIterSlice(b *Bitmap, from uint64) []uint64 {
 	return out
 }
 
+// hSameSet compares two bitmaps through their public iterators in lockstep
+// (no materialisation: Slice() of a few full containers dominates otherwise).
+func hSameSet(a, b *Bitmap) bool {
+	if a.Count() != b.Count() {
+		return false
+	}
+	ia, ib := a.Iterator(), b.Iterator()
+	ia.Seek(0)
+	ib.Seek(0)
+	for {
+		va, ea := ia.Next()
+		vb, eb := ib.Next()
+		if ea != eb || (!ea && va != vb) {
+			return false
+		}
+		if ea {
+			return true
+		}
+	}
+}
+
 // ---------------------------------------------------------------- shrinking
 
 type hFail struct {
@@ -575,4 +596,15 @@ func hShrink(h *hHist, f *hFail, exec func(*hHist) *hFail, budget int) (*hHist, 
 		}
 	}
 	return cur, curF
+}
+
+// hImportOp builds a one-container (array) import operation.
+func hImportOp(kind, fmtName string, key uint64, lows []uint16) hOp {
+	vals := append([]uint16(nil), lows...)
+	op := hOp{Kind: kind, Fmt: fmtName, RowSize: 1}
+	enc := byte(containerArray)
+	op.spec.Conts = []vContSpec{{Key: key, Shape: "pool", Enc: vEncName(enc), N: len(vals), enc: enc, vals: vals}}
+	op.Encs = "a"
+	op.Vals = op.spec.vModel()
+	return op
 }
